@@ -64,6 +64,7 @@ def install():
         Event = sched.VEvent
 
     S.threading = _Threading
+    ExecutionState._orig_create_checkpoint = ExecutionState.create_checkpoint   # the unmodified method (harness/inv.py replaces the attribute)
     _lowered["collect"] = colower.lower_method(ExecutionState, "_collect_checkpoint_batch", CONSUMER_POINTS,
                                                idle_attrs={"_checkpoint_queue.get"})
     _lowered["fetch"] = colower.lower_method(ExecutionState, "fetch_paginated_operations", FETCH_POINTS)
